@@ -101,3 +101,78 @@ Theorem C17_basis_defect_small : defect_check = true.
 Proof. exact basis_defect_small. Qed.
 Print Assumptions C17_basis_defect_small.
 
+
+(* ---- Locating is stable around a cell's centre, and works in every quintant at the true scale (Geo/LocateQuintants.v,
+   exact rationals, axiom-free).  [C17_locate_robust]: every lattice point within 1/20 (in each coordinate) of the centre
+   of cell s is located at s; [C17_locate_face_robust] / [C17_locate_scaled_robust]: the same for face points within 1/40,
+   unscaled and at the true scale 2^-n; [C17_locate_quintant]: in every quintant q = 0..4, for EVERY matrix N that
+   inverts the quintant's f64 rotation matrix to within 1e-11 entrywise (the code un-rotates with f64 cos / sin, which
+   is only approximately the inverse), un-rotating the centre of cell (q, n, s), scaling by 2^n and locating returns s -
+   the computation of lonlat_to_estimate.  The two corollaries instantiate N by the exact rational inverse and by the
+   transpose (an f64-valued witness, so the hypothesis is satisfiable by what the code can compute). ---- *)
+From Coq Require Import Qabs.
+From A5 Require Import Geo.AreaProofs Geo.ChildQuintants Geo.LocateQuintants.
+Open Scope Q_scope.
+
+Theorem C17_locate_robust (n : nat) (o s : Z) :
+  (1 <= n <= 29)%nat -> (0 <= o < 6)%Z -> (0 <= s < 4 ^ Z.of_nat n)%Z ->
+  exists l, get_pentagon_vertices QInst 0 0 (s_to_anchor s n o) = Some l /\
+    let c := face_to_ij QInst (get_center QInst l) in
+    forall i j : Q, Qabs (i - fst c) <= 1 # 20 -> Qabs (j - snd c) <= 1 # 20 ->
+      ij_to_s QInst i j n o = Some s.
+Proof. exact (locate_robust n o s). Qed.
+Print Assumptions C17_locate_robust.
+
+Theorem C17_locate_face_robust (n : nat) (o s : Z) :
+  (1 <= n <= 29)%nat -> (0 <= o < 6)%Z -> (0 <= s < 4 ^ Z.of_nat n)%Z ->
+  exists l, get_pentagon_vertices QInst 0 0 (s_to_anchor s n o) = Some l /\
+    let c := get_center QInst l in
+    forall p : Q * Q, Qabs (fst p - fst c) <= 1 # 40 -> Qabs (snd p - snd c) <= 1 # 40 ->
+      let ij := face_to_ij QInst p in ij_to_s QInst (fst ij) (snd ij) n o = Some s.
+Proof. exact (locate_face_robust n o s). Qed.
+Print Assumptions C17_locate_face_robust.
+
+Theorem C17_locate_scaled_robust (n : nat) (o s : Z) :
+  (1 <= n <= 29)%nat -> (0 <= o < 6)%Z -> (0 <= s < 4 ^ Z.of_nat n)%Z ->
+  exists ln, get_pentagon_vertices QInst (Z.of_nat n) 0 (s_to_anchor s n o) = Some ln /\
+    let c := get_center QInst ln in
+    let sf := inject_Z (2 ^ Z.of_nat n) in
+    forall dx dy : Q, Qabs dx <= 1 # 40 -> Qabs dy <= 1 # 40 ->
+      let ij := face_to_ij QInst (fst c * sf + dx, snd c * sf + dy) in
+      ij_to_s QInst (fst ij) (snd ij) n o = Some s.
+Proof. exact (locate_scaled_robust n o s). Qed.
+Print Assumptions C17_locate_scaled_robust.
+
+Theorem C17_locate_quintant (n : nat) (q o s : Z) (N : mat (T := Q)) :
+  (0 <= q <= 4)%Z -> (1 <= n <= 29)%nat -> (0 <= o < 6)%Z -> (0 <= s < 4 ^ Z.of_nat n)%Z ->
+  near_inverse N (rotation QInst q) ->
+  exists lq, get_pentagon_vertices QInst (Z.of_nat n) q (s_to_anchor s n o) = Some lq /\
+    let c := get_center QInst lq in
+    let dp := mat_apply QInst N c in
+    let sf := o_ofZ QInst (2 ^ Z.of_nat n) in
+    let ij := face_to_ij QInst (o_mul QInst (fst dp) sf, o_mul QInst (snd dp) sf) in
+    ij_to_s QInst (fst ij) (snd ij) n o = Some s.
+Proof. exact (locate_quintant n q o s N). Qed.
+Print Assumptions C17_locate_quintant.
+
+Theorem C17_locate_quintant_exact_inverse (n : nat) (q o s : Z) :
+  (0 <= q <= 4)%Z -> (1 <= n <= 29)%nat -> (0 <= o < 6)%Z -> (0 <= s < 4 ^ Z.of_nat n)%Z ->
+  exists lq, get_pentagon_vertices QInst (Z.of_nat n) q (s_to_anchor s n o) = Some lq /\
+    let c := get_center QInst lq in
+    let dp := mat_apply QInst (mat_inverse (rotation QInst q)) c in
+    let sf := o_ofZ QInst (2 ^ Z.of_nat n) in
+    let ij := face_to_ij QInst (o_mul QInst (fst dp) sf, o_mul QInst (snd dp) sf) in
+    ij_to_s QInst (fst ij) (snd ij) n o = Some s.
+Proof. exact (locate_quintant_exact_inverse n q o s). Qed.
+Print Assumptions C17_locate_quintant_exact_inverse.
+
+Theorem C17_locate_quintant_transpose (n : nat) (q o s : Z) :
+  (0 <= q <= 4)%Z -> (1 <= n <= 29)%nat -> (0 <= o < 6)%Z -> (0 <= s < 4 ^ Z.of_nat n)%Z ->
+  exists lq, get_pentagon_vertices QInst (Z.of_nat n) q (s_to_anchor s n o) = Some lq /\
+    let c := get_center QInst lq in
+    let dp := mat_apply QInst (mat_transpose (rotation QInst q)) c in
+    let sf := o_ofZ QInst (2 ^ Z.of_nat n) in
+    let ij := face_to_ij QInst (o_mul QInst (fst dp) sf, o_mul QInst (snd dp) sf) in
+    ij_to_s QInst (fst ij) (snd ij) n o = Some s.
+Proof. exact (locate_quintant_transpose n q o s). Qed.
+Print Assumptions C17_locate_quintant_transpose.
